@@ -412,6 +412,17 @@ def run_scenarios(rep, rng, binp, modnames, mod_ir, failing, drift, quick):
             optxt = ",".join(o[0] + (str(o[1]) if len(o) > 1 else "") + ("=" + o[2] if len(o) > 2 else "") for o in ops)
             jobs.append((mod, ["hist %d %s %s" % (dflt, ",".join(map(str, rd)), optxt)]))
             meta.append(("hist", mod, ops, rd, dflt))
+    # ---- 3c'. liveness: the clock steps back by seconds, its very next reading is past the last stamp again: creation completes at that reading, the
+    #      generated code must not commit itself to a wait measured when it saw the regression (waits it asks for are recorded by the mock clock)
+    for mod in [m for m in modnames if not m.startswith("r")]:
+        lines, info = ["slept"], []
+        for k, (back, fwd) in enumerate(((6_000_000_000, 60_000_000_000), (1_500_000_000, 1), (40_000_000, 1_000_000_000))):
+            base = 900_000_000_000 * (k + 1)
+            rd = [base - back, base + fwd]
+            lines += ["call %d %d" % (base + 500_000_000_000, base), "call %d %s" % (base + 500_000_000_000, ",".join(map(str, rd))), "slept"]
+            info.append((base, rd))
+        jobs.append((mod, lines))
+        meta.append(("waits", mod, info))
     # ---- 3d. real clock
     for mod in [m for m in modnames if m.startswith("r")]:
         jobs.append((mod, ["real 8 %d" % (1500 if quick else 12500), "real 3 200"]))
@@ -515,6 +526,24 @@ def run_scenarios(rep, rng, binp, modnames, mod_ir, failing, drift, quick):
                     rep.oblige(True)
                 if len(rep.samples) < 5 and info[0] != "prime" and idx % 37 == 3:
                     rep.sample({"module": mod, "scenario": info[0], "readings": rd, "observed": line, "model": model[idx]})
+        elif m[0] == "waits":
+            rep.evaluations += 1
+            rep.traces += 1
+            sl = [l for l in (out or []) if l.startswith("slept")]
+            if out is None or len(sl) != len(m[2]) + 1:
+                rep.notes.append("wait scenario of module %s gave no usable output (%s): %s" % (mod, err, (out or [])[:4]))
+                continue
+            for (base, rd), l in zip(m[2], sl[1:]):
+                waits = [int(x) for x in l.split()[1].split(",") if x] if len(l.split()) > 1 else []
+                long = [w for w in waits if w >= 20_000_000]
+                rep.nontrivial.add(("waits", mod, base - rd[0]))
+                if rep.oblige(not long):
+                    continue
+                failing.append(("runtime_waits_%s_%d" % (mod, base), {
+                    "what": "creation does not complete as soon as the clock moves forward again: after the clock reading %d (the last stamp is %d, %d ns later) the generated debut() asks to "
+                            "wait for %s ns although the clock's next reading %d is already past the last stamp" % (rd[0], base, base - rd[0], long, rd[1]),
+                    "module": mod, "last_stamp": base, "clock_readings": rd, "waits_requested_ns": waits,
+                    "replay": "printf '%s\\n' | %s %s" % ("\\n".join(jobs[k][1]), binp, mod)}))
         elif m[0] == "hist":
             rep.evaluations += 1
             rep.traces += 1
